@@ -431,7 +431,9 @@ impl FixedFile {
 
 pub fn fixed_file(max_recs: usize, layouts_allowed: Vec<usize>) -> BoxedStrategy<FixedFile> {
     let rec = (
-        prop_oneof![3 => 0i64..6, 2 => 0i64..200, 1 => 0i64..100_000],
+        // -1: the record sits in the first second of the epoch (tv_sec == 0) with a non-zero microsecond part — a live
+        // record, unlike time (0,0); only for layouts that store microseconds (elsewhere it is an ordinary record)
+        prop_oneof![12 => 0i64..6, 8 => 0i64..200, 4 => 0i64..100_000, 1 => Just(-1i64)],
         prop_oneof![2 => Just(0i64), 1 => Just(1i64), 1 => Just(999_999i64), 2 => 0i64..1_000_000],
         prop_oneof![12 => Just(0u8), 1 => Just(1u8), 1 => Just(2u8), 1 => Just(3u8)],
         1i32..60000,
@@ -448,7 +450,22 @@ pub fn fixed_file(max_recs: usize, layouts_allowed: Vec<usize>) -> BoxedStrategy
     (prop::sample::select(layouts_allowed), 1_000_000_000i64..1_800_000_000, prop::collection::vec(rec, 1..=max_recs))
         .prop_map(|(layout, base, recs)| FixedFile {
             layout,
-            recs: recs.into_iter().enumerate().map(|(i, (ds, usec, null, pid, typ, full, stale, addr))| FRec { sec: base + ds, usec, null, pid, typ, serial: i as u32, full, stale, addr }).collect(),
+            recs: recs.into_iter().enumerate().map(|(i, (ds, usec, null, pid, typ, full, stale, addr))| FRec { sec: if ds < 0 { -1 } else { base + ds }, usec, null, pid, typ, serial: i as u32, full, stale, addr }).collect(),
+        })
+        .prop_map(|mut f| {
+            let has_usec = f.lay().usec.is_some();
+            let fallback = f.recs.iter().map(|r| r.sec).filter(|s| *s >= 0).min().unwrap_or(1_234_567_890);
+            for r in f.recs.iter_mut() {
+                if r.sec < 0 {
+                    if has_usec {
+                        r.sec = 0;
+                        r.usec = r.usec.max(1);
+                    } else {
+                        r.sec = fallback;
+                    }
+                }
+            }
+            f
         })
         .boxed()
 }
